@@ -123,6 +123,8 @@ template<typename A>
 CouponList<A>* CouponList<A>::newList(std::istream& is, const A& allocator) {
   uint8_t listHeader[8];
   read(is, listHeader, 8 * sizeof(uint8_t));
+  if (!is.good())
+    throw std::runtime_error("error reading from std::istream");
 
   if (listHeader[hll_constants::PREAMBLE_INTS_BYTE] != hll_constants::LIST_PREINTS) {
     throw std::invalid_argument("Incorrect number of preInts in input stream");
